@@ -36,7 +36,7 @@ REACH = {
     "thorough": {"cases_checked": 100000, "back_to_back_streams": 5000},
 }
 SOPTS = dict(bytes_defaults=0.0)
-DOPTS = dict()
+DOPTS = dict(omit_nullable=0.1)
 
 
 def plan(tier, seed):
